@@ -19,7 +19,8 @@ BpRulesDef == { EnvRec.entries[i] : i \in 1..Len(EnvRec.entries) } \ {"top"}
 \* into a full channel that nobody will read while the controller joins
 BlockedSending == gen > 0 /\ th[gen].pc \in {"send", "finsend"} /\ Len(chan[gen]) >= Cap
 Dump(kind, name) == PrintT(<<kind, name, ToJson([hist |-> hist, chan |-> [g \in 1..gen |-> chan[g]], expect_stuck |-> (ctl = "runjoin" /\ Stuck),
-                                                 stuck_pc |-> IF gen > 0 THEN th[gen].pc ELSE "none", blocked_sending |-> BlockedSending])>>)
+                                                 stuck_pc |-> IF gen > 0 THEN th[gen].pc ELSE "none", blocked_sending |-> BlockedSending,
+                                                 parked |-> [g \in 1..gen |-> th[g].pc = "park" /\ ~th[g].token]])>>)
 
 InvOnePerContinue == OnePerContinue \/ (Dump("CEX", "OnePerContinue") /\ FALSE)
 InvNothingWhileWaiting == NothingWhileWaiting \/ (Dump("CEX", "NothingWhileWaiting") /\ FALSE)
@@ -32,4 +33,20 @@ Done == ncmd = MaxCmds /\ Quiescent
 EmitBehaviour == Done => Dump("BEH", "end")
 \* stuck ends are behaviours too (the open run() never returns)
 EmitStuck == (ctl = "runjoin" /\ Stuck) => Dump("BEH", "stuck")
+
+\* ---- directed scripts ("test purposes"): the controller's commands are fixed by the record's `script`, TLC explores
+\* every interleaving of that script with the parser threads, and every quiescent end is a behaviour to replay.
+\* Scripts reach situations that random scripts of the same length practically never do: a continue that arrives
+\* after the last breakpoint of a run followed by a restart, a breakpoint deleted or added while the parser waits ...
+ScriptDef == IF "script" \in DOMAIN EnvRec THEN EnvRec.script ELSE <<>>
+IsCmd(h) == h.who = "ctl" /\ h.act \in {"cmd", "Recv", "add", "del", "delall"}
+CmdOf(h) == CASE h.act = "cmd" -> [c |-> h.data, r |-> ""]
+              [] h.act = "Recv" -> [c |-> "recv", r |-> ""]
+              [] h.act = "delall" -> [c |-> "delall", r |-> ""]
+              [] OTHER -> [c |-> h.act, r |-> h.data]
+FollowsScript ==
+  LET cs == SelectSeq(hist, IsCmd) IN
+  Len(cs) <= Len(ScriptDef) /\ \A i \in 1..Len(cs) : CmdOf(cs[i]) = ScriptDef[i]
+ScriptDone == ncmd = Len(ScriptDef) /\ Quiescent
+EmitScripted == (ScriptDone /\ FollowsScript) => Dump("BEH", "script")
 ===============================================================================
